@@ -109,27 +109,29 @@ fn sort_printed_planes(args: &Args, planes_vector: &mut Vec<(&u32, &Plane)>) {
                     });
                 }
                 'd' => {
-                    planes_vector.sort_by_cached_key(|&(_, p)| {
-                        p.distance_from_observer.unwrap_or(0.0) as i32
+                    planes_vector.sort_by(|(_, p), (_, q)| {
+                        let d = |x: &Plane| x.distance_from_observer.unwrap_or(0.0);
+                        d(p).total_cmp(&d(q))
                     });
                 }
                 'D' => {
-                    planes_vector.sort_by_cached_key(|&(_, p)| {
-                        p.distance_from_observer.unwrap_or(0.0) as i32
+                    planes_vector.sort_by(|(_, p), (_, q)| {
+                        let d = |x: &Plane| x.distance_from_observer.unwrap_or(0.0);
+                        d(p).total_cmp(&d(q))
                     });
                     planes_vector.reverse();
                 }
                 'N' => {
-                    planes_vector.sort_by_cached_key(|&(_, p)| p.lat as i32);
+                    planes_vector.sort_by(|(_, p), (_, q)| p.lat.total_cmp(&q.lat));
                 }
                 'S' => {
-                    planes_vector.sort_by_cached_key(|&(_, p)| -(p.lat as i32));
+                    planes_vector.sort_by(|(_, p), (_, q)| q.lat.total_cmp(&p.lat));
                 }
                 'W' => {
-                    planes_vector.sort_by_cached_key(|&(_, p)| p.lon as i32);
+                    planes_vector.sort_by(|(_, p), (_, q)| p.lon.total_cmp(&q.lon));
                 }
                 'E' => {
-                    planes_vector.sort_by_cached_key(|&(_, p)| -(p.lon as i32));
+                    planes_vector.sort_by(|(_, p), (_, q)| q.lon.total_cmp(&p.lon));
                 }
                 's' => {
                     planes_vector.sort_by_cached_key(|&(_, p)| p.squawk);
